@@ -963,9 +963,9 @@ void gen_c08(Gen &g) {
   unsigned tw = (unsigned)r.below(10);
   int maxq = g.thorough ? 8 : 4;
   if (tw < 7)
-    target = 6000 * r.range(1, maxq) + r.range(-25, 25);
+    target = lib_geometry().step * r.range(1, maxq) + r.range(-25, 25);
   else if (tw < 9)
-    target = r.range(30, 6000L * maxq);
+    target = r.range(30, lib_geometry().step * maxq);
   else
     target = r.range(30, 400);
   std::vector<std::string> prog = gen_exec_program(r, 0, o, target);
@@ -1185,7 +1185,7 @@ void gen_c17(Gen &g) {
   if (second) t.ops.push_back(mk_create(g, 1, r.range(200, 2000)));
   int o = opt_index(2, 1, 1);
   // long assembly with growth, fed in a few calls; plain, chunk fitting or counting
-  long target = r.chance(2, 3) ? 6000 * r.range(1, 2) + r.range(100, 3000) : r.range(100, 5000);
+  long target = r.chance(2, 3) ? lib_geometry().step * r.range(1, 2) + r.range(100, 3000) : r.range(100, 5000);
   std::vector<std::string> prog = gen_exec_program(r, 0, o, target);
   unsigned amode = (unsigned)r.below(6);  // 0..2 plain, 3..4 fitting, 5 counting
   if (amode == 3 || amode == 4) {
